@@ -19,14 +19,20 @@ from vt.mon import c27_child as K
 PID = "C27"
 LEVEL = "fault_enumeration"
 TECHNIQUE = "crash-point / truncation-offset / fault-script enumeration with a recompile oracle"
-RULE = ("(a) crash points: a child process loads a template through FileSystemBytecodeCache and "
-        "os._exit()s at the k-th I/O event of that load (audit events open/tempfile.mkstemp/os.rename/"
-        "os.remove in the cache dir + before/torn/after each write Bucket.write_bytecode makes + "
-        "entering/leaving it), for EVERY k of a dry run, with and without flushing what was written, "
-        "on an empty directory and on one holding an entry for the previous source; the harness process "
-        "(which never held the writer's state) then loads twice with fresh environments and clears. (b) every truncation offset 0..len-1 of stored entries, every "
-        "single-byte change of the header, entries written under a spoofed interpreter version, "
-        "another template's entry, a directory / unreadable file in place of the entry. (c) every "
+RULE = ("(a) crash points: one template load through FileSystemBytecodeCache is instrumented (audit "
+        "events open/tempfile.mkstemp/os.rename/os.remove in the cache dir + before/torn/after each "
+        "write that Bucket.write_bytecode makes + entering/leaving it); at EVERY event k of that load "
+        "the state a process death would leave is captured (copy of the directory as the OS sees it, "
+        "with and without flushing what was written so far; torn = first half of the write flushed) "
+        "and, for one series in quick / all series in thorough, a forked writer is really killed with "
+        "os._exit at event k and its directory compared with the capture; on an empty directory and "
+        "on one holding an entry for the previous source, small and >8 KiB entries, DictLoader and "
+        "FileSystemLoader; then fresh environments load twice from what was left and clear(). "
+        "(b) every truncation offset 0..len-1 of stored entries, every "
+        "single-byte change of the header (payload = other valid code), entries written by the real "
+        "Bucket code under a spoofed interpreter version (own / garbage / other-code payload), "
+        "another template's or another source's entry, a directory / unreadable / empty file in place "
+        "of the entry. (c) every "
         "history of length<=L (4 quick, 5 thorough) over {load env1, load env2, modify source, clear} "
         "ending in a load, env1/env2 sharing the directory and equal or differing in one of autoescape/"
         "trim_blocks/lstrip_blocks/enable_async/sandboxed/delimiters. (d) MemcachedBytecodeCache with "
